@@ -1,7 +1,6 @@
 //! l1rec: runtime monitors; usage: l1rec <property> --seed S --tier quick|thorough --shard i --shards n [--budget N] --out frag.json [--replay file]
 mod c01;
 mod c04;
-mod c07;
 mod c08;
 mod c09;
 mod c10;
@@ -20,7 +19,6 @@ fn main() {
     match prop.as_str() {
         "c01" => c01::run(&args, &mut rep),
         "c04" => c04::run(&args, &mut rep),
-        "c07" => c07::run(&args, &mut rep),
         "c08" => c08::run(&args, &mut rep),
         "c09" => c09::run(&args, &mut rep),
         "c10" => c10::run(&args, &mut rep),
